@@ -1019,7 +1019,14 @@ class FuncChr(ValueFunc):
     def execute(self, args, environment, pos):
         if args.isNull("n"):
             return NULL
-        return ValueString(chr(args.getInt("n").value))
+        n = args.getInt("n").value
+        if n < 0 or n > 0x10FFFF:
+            raise CklRuntimeError(
+                ValueString("ERROR"),
+                "Code point " + str(n) + " out of range",
+                pos,
+            )
+        return ValueString(chr(n))
 
 
 class FuncClose(ValueFunc):
@@ -2779,7 +2786,14 @@ class FuncOrd(ValueFunc):
     def execute(self, args, environment, pos):
         if args.isNull("ch"):
             return NULL
-        return ValueInt(ord(args.getString("ch").value[0]))
+        ch = args.getString("ch").value
+        if ch == "":
+            raise CklRuntimeError(
+                ValueString("ERROR"),
+                "Cannot determine code point of empty string",
+                pos,
+            )
+        return ValueInt(ord(ch[0]))
 
 
 class FuncParse(ValueFunc):
